@@ -498,9 +498,10 @@ Section TotalForce.
     st_ft : T;
     st_fold : T;
     st_rel : nat;
-    st_comp : bool     (* prev_Jacobian_force_compensated *)
+    st_comp : bool;    (* prev_Jacobian_force_compensated *)
+    st_prev_cv : colvar   (* the configuration (prev_cvc_weights: coefficients and their square norm) of the previous step *)
   }.
-  Definition cv_init : cvstate := mkCvstate fzero zero zero zero 0 false.
+  Definition cv_init : cvstate := mkCvstate fzero zero zero zero 0 false (mkColvar [] false false false zero).
 
   Record cvout : Type := mkCvout {
     o_ft : T;          (* ft_reported *)
@@ -514,7 +515,8 @@ Section TotalForce.
     let ft1 :=
       if cv_samestep cv then st_ft s
       else if measured_lagged
-           then cv_proj mass (st_prev_pos s) cv F + (if adds_fj cv (st_comp s) then st_fj s else zero)
+           (* the forces of the previous step are combined with the coefficients of the previous step *)
+           then cv_proj mass (st_prev_pos s) (st_prev_cv s) F + (if adds_fj cv (st_comp s) then st_fj s else zero)
            else st_ft s in
     let fj := cv_fj mass pos cv in
     (* same step: after the values and Jacobians of this step *)
@@ -524,9 +526,9 @@ Section TotalForce.
     let ft3 :=
       if cv_subtract cv && negb (cv_samestep cv) && measured_lagged then ft2 - st_fold s else ft2 in
     let f := applied_force cv apply fb fj in
-    let fold := if cv_subtract cv then f else st_fold s in      (* end_of_step, at every step *)
+    let fold := f in      (* end_of_step records f at every step, also while subtractAppliedForce is off (it may be switched on by script) *)
     (* communicate_forces runs only while a bias applies a force to the variable *)
-    (mkCvstate pos fj ft3 fold (S (st_rel s)) (cv_hide cv && apply),
+    (mkCvstate pos fj ft3 fold (S (st_rel s)) (cv_hide cv && apply) cv,
      mkCvout ft3 f (if apply then cv_apply mass pos cv f else fzero)).
 
   (* ------------------------------------------------------------------ the engine (harness/vsim.h step()):
